@@ -21,6 +21,91 @@ theorem C20_filter_intersection (fs : List Filter) (cs : Bool) (m : List Uuid)
     have := scan_cannotSplit fs _ _ h
     simpa using this
 
+/-- a successful split request: every cluster loop ended normally and the result is the merge of
+all delivered pages -/
+theorem ok_split (cfg : Cfg) (o : Opts) (gs : List (ClusterId × List Uuid))
+    (hplan : plan cfg.localId cfg.maxItems o = .split gs) (items : List Obj)
+    (hok : (run cfg o).out = .ok items) :
+    (∀ g ∈ gs, (runCluster cfg o g.1 g.2).stop = .done) ∧
+    items = mergePages ((splitResults cfg o gs).flatMap (fun r => r.2.pages)) := by
+  rw [run_of_split cfg o _ hplan] at hok
+  split at hok
+  · rename_i herr
+    cases hok
+    exact ⟨done_of_results cfg o gs ((errs_nil_iff _).mp herr), rfl⟩
+  · cases hok
+
+/-- **Safety for arbitrary backends (after fix d542fa4).** Whatever the backends answer — any page
+size, order, repeated, duplicated, unrequested or foreign items, errors — if a split request
+succeeds then the result contains no uuid twice, contains only requested well-formed uuids, and
+every returned object was handed over by the backend selected by its uuid prefix, in answer to a
+batch made of uuids of that prefix. -/
+theorem C20_safe (cfg : Cfg) (o : Opts) (gs : List (ClusterId × List Uuid))
+    (hplan : plan cfg.localId cfg.maxItems o = .split gs) (items : List Obj)
+    (hok : (run cfg o).out = .ok items) :
+    (pageUuids items).Nodup ∧
+    (∀ u ∈ pageUuids items, InAll o.filters u ∧ wellFormed u = true) ∧
+    (∀ x ∈ items, ∃ B batch i page, backendFor cfg (home x.uuid) = some B ∧
+      (∀ u ∈ batch, home u = home x.uuid) ∧
+      B (batchReq (remoteOpts cfg.localId o) batch) i = .page page ∧ x ∈ page) := by
+  obtain ⟨m, hscan, hgs, -, -, -, -, -, -, -, -, -⟩ := plan_split _ _ _ _ hplan
+  obtain ⟨hnd, hmem, -, -⟩ := C20_filter_intersection _ _ _ hscan
+  obtain ⟨hk, hwf⟩ := groups_wf _ (hnd.filter wellFormed)
+  subst hgs
+  obtain ⟨hdone, rfl⟩ := ok_split cfg o _ hplan items hok
+  have hhome : ∀ g ∈ groups (m.filter wellFormed), ∀ u ∈ g.2, home u = g.1 := fun g hg => (hwf g hg).2
+  obtain ⟨a2, a3⟩ := split_safe_all cfg o _ hk hhome hdone
+  have hperm := mergePages_perm ((splitResults cfg o (groups (m.filter wellFormed))).flatMap (fun r => r.2.pages))
+  refine ⟨(hperm.map _).nodup_iff.mpr a2, ?_, ?_⟩
+  · intro u hu
+    obtain ⟨g, hg, hug⟩ := a3 u ((hperm.map _).mem_iff.mp hu)
+    obtain ⟨_, h2⟩ := (mem_groups _ g).mp hg
+    rw [h2] at hug
+    have := List.mem_filter.mp (List.mem_filter.mp hug).1
+    exact ⟨(hmem u).mp this.1, this.2⟩
+  · intro x hx
+    have hx' := hperm.mem_iff.mp hx
+    obtain ⟨ps, hps, hxp⟩ := List.mem_flatten.mp hx'
+    obtain ⟨r, hr, hpr⟩ := List.mem_flatMap.mp hps
+    obtain ⟨g, hg, rfl⟩ := List.mem_map.mp hr
+    have hxf : x ∈ (runCluster cfg o g.1 g.2).pages.flatten := List.mem_flatten.mpr ⟨ps, hpr, hxp⟩
+    obtain ⟨⟨B, hbf⟩, _, hsub⟩ := runCluster_safe cfg o g.1 g.2 (hdone g hg)
+    have hhx : home x.uuid = g.1 := hhome g hg _ (hsub _ (List.mem_map.mpr ⟨x, hxf, rfl⟩))
+    unfold runCluster at hxf
+    rw [hbf] at hxf
+    obtain ⟨batch, i, page, hb, hcall, hxin⟩ := loop_provenance B _ _ _ _ x hxf
+    refine ⟨B, batch, i, page, by rw [hhx]; exact hbf, ?_, hcall, hxin⟩
+    intro u hu
+    rw [hhx]; exact hhome g hg _ (hb _ hu)
+
+/-- "Exactly once" over backends that may repeat items (the quantifier's "repeated items"): whenever
+the request succeeds, the result contains each requested well-formed uuid that exists on its home
+cluster exactly once and nothing else. (Before fix d542fa4 this was false: the request succeeded
+with duplicates. Now a repeated item makes the request fail with 502, see the example below.) -/
+def C20_exactly_once_Full : Prop :=
+  ∀ (cfg : Cfg) (o : Opts) (gs : List (ClusterId × List Uuid)) (ex : ClusterId → Uuid → Bool),
+    plan cfg.localId cfg.maxItems o = .split gs →
+    (∀ g ∈ gs, ∃ B, backendFor cfg g.1 = some B ∧ RepeatingHonest (ex g.1) B) →
+    ∀ items, (run cfg o).out = .ok items →
+      (pageUuids items).Nodup ∧
+      ∀ u, u ∈ pageUuids items ↔ (InAll o.filters u ∧ wellFormed u = true ∧ ex (home u) u = true)
+
+theorem C20_exactly_once_full : C20_exactly_once_Full := by
+  intro cfg o gs ex hplan hB items hok
+  obtain ⟨m, hscan, hgs, -, -, -, -, -, -, -, -, -⟩ := plan_split _ _ _ _ hplan
+  obtain ⟨hnd, hmem, -, -⟩ := C20_filter_intersection _ _ _ hscan
+  obtain ⟨hk, hwf⟩ := groups_wf _ (hnd.filter wellFormed)
+  subst hgs
+  obtain ⟨hdone, rfl⟩ := ok_split cfg o _ hplan items hok
+  obtain ⟨a2, a3⟩ := split_repeating_all cfg o ex _ hk (fun g hg => (hwf g hg).2) hB hdone
+  have hperm := mergePages_perm ((splitResults cfg o (groups (m.filter wellFormed))).flatMap (fun r => r.2.pages))
+  refine ⟨(hperm.map _).nodup_iff.mpr a2, fun u => ?_⟩
+  unfold pageUuids at a3 ⊢
+  rw [(hperm.map _).mem_iff, a3, mem_some_group, List.mem_filter, hmem]
+  constructor
+  · rintro ⟨⟨h1, h2⟩, h3⟩; exact ⟨h1, h2, h3⟩
+  · rintro ⟨h1, h2, h3⟩; exact ⟨⟨h1, h2⟩, h3⟩
+
 /-- **Exactly once, from the home cluster.** If the request is split and every involved cluster has
 a backend that answers honestly (each page: duplicate-free, existing objects of the batch, non-empty
 while any remain — any page size, any order, any call), the request succeeds, the result contains
@@ -38,39 +123,14 @@ theorem C20_exactly_once (cfg : Cfg) (o : Opts) (gs : List (ClusterId × List Uu
         (∀ u ∈ batch, home u = home x.uuid) ∧
         B (batchReq (remoteOpts cfg.localId o) batch) i = .page page ∧ x ∈ page) := by
   obtain ⟨m, hscan, hgs, -, -, -, -, -, -, -, -, -⟩ := plan_split _ _ _ _ hplan
-  obtain ⟨hnd, hmem, -, -⟩ := C20_filter_intersection _ _ _ hscan
-  have hnd27 : (m.filter wellFormed).Nodup := hnd.filter _
-  obtain ⟨hk, hwf⟩ := groups_wf _ hnd27
-  subst hgs
-  obtain ⟨a1, a2, a3⟩ := split_honest_all cfg o ex _ hk hwf hB
-  rw [run_of_split cfg o _ hplan, if_pos ((errs_nil_iff _).mpr a1)]
-  have hperm := mergePages_perm ((splitResults cfg o (groups (m.filter wellFormed))).flatMap (fun r => r.2.pages))
-  refine ⟨_, rfl, ?_, ?_, ?_⟩
-  · exact (hperm.map _).nodup_iff.mpr a2
-  · intro u
-    unfold pageUuids at a3 ⊢
-    rw [(hperm.map _).mem_iff, a3, mem_some_group, List.mem_filter, hmem]
-    constructor
-    · rintro ⟨⟨h1, h2⟩, h3⟩; exact ⟨h1, h2, h3⟩
-    · rintro ⟨h1, h2, h3⟩; exact ⟨⟨h1, h2⟩, h3⟩
-  · intro x hx
-    have hx' := hperm.mem_iff.mp hx
-    obtain ⟨ps, hps, hxp⟩ := List.mem_flatten.mp hx'
-    obtain ⟨r, hr, hpr⟩ := List.mem_flatMap.mp hps
-    obtain ⟨g, hg, rfl⟩ := List.mem_map.mp hr
-    obtain ⟨B, hbf, hhon⟩ := hB g hg
-    have hxf : x ∈ (runCluster cfg o g.1 g.2).pages.flatten := List.mem_flatten.mpr ⟨ps, hpr, hxp⟩
-    unfold runCluster at hxf
-    rw [hbf] at hxf
-    obtain ⟨batch, i, page, hsub, hcall, hxin⟩ := loop_provenance B _ _ _ _ x hxf
-    obtain ⟨page', hp', -, hin, -⟩ := hhon (batchReq (remoteOpts cfg.localId o) batch) batch i rfl
-    rw [hcall] at hp'
-    cases hp'
-    have hxb : x.uuid ∈ batch := (hin x.uuid (List.mem_map.mpr ⟨x, hxin, rfl⟩)).1
-    have hhome : home x.uuid = g.1 := (hwf g hg).2 _ (hsub _ hxb)
-    refine ⟨B, batch, i, page, by rw [hhome]; exact hbf, ?_, hcall, hxin⟩
-    intro u hu
-    rw [hhome]; exact (hwf g hg).2 _ (hsub _ hu)
+  obtain ⟨hnd, -, -, -⟩ := C20_filter_intersection _ _ _ hscan
+  obtain ⟨_, hwf⟩ := groups_wf _ (hnd.filter wellFormed)
+  have hdone := split_honest_done cfg o ex gs (by subst hgs; exact fun g hg => (hwf g hg).1) hB
+  have hok : (run cfg o).out = .ok (mergePages ((splitResults cfg o gs).flatMap (fun r => r.2.pages))) := by
+    rw [run_of_split cfg o _ hplan, if_pos ((errs_nil_iff _).mpr (results_of_done cfg o gs hdone))]
+  obtain ⟨f1, f2⟩ := C20_exactly_once_full cfg o gs ex hplan
+    (fun g hg => by obtain ⟨B, h1, h2⟩ := hB g hg; exact ⟨B, h1, honest_repeating _ _ h2⟩) _ hok
+  exact ⟨_, hok, f1, f2, (C20_safe cfg o gs hplan _ hok).2.2⟩
 
 /-- **Termination.** For any backend whatsoever the per-cluster loop started with fuel `|todo|`
 never runs out of fuel, gives the same result for every larger fuel (so the fuel is not a
@@ -97,16 +157,18 @@ theorem C20_terminates_run (cfg : Cfg) (o : Opts) (gs : List (ClusterId × List 
 
 /-- **Fail whole.** For a split request and arbitrary backends: the outcome is either a success, and
 then every involved cluster had a backend and every call made returned a page that was empty or
-contained a still-wanted uuid (no error, no unknown cluster, no no-progress answer anywhere); or an
-error whose possible statuses are a non-empty list of 404 (no backend for the cluster) and 502
-(backend error / no progress). A partial list is never presented as success. -/
+consisted of pairwise distinct, still-wanted uuids of its batch (no error, no unknown cluster, no
+no-progress answer, no repeated or unrequested item anywhere); or an error whose possible statuses
+are a non-empty list of 404 (no backend for the cluster) and 502 (backend error / no progress /
+item outside the batch). A partial list is never presented as success. -/
 theorem C20_fail_whole (cfg : Cfg) (o : Opts) (gs : List (ClusterId × List Uuid))
     (hplan : plan cfg.localId cfg.maxItems o = .split gs) :
     (∀ items, (run cfg o).out = .ok items →
       ∀ g ∈ gs, (∃ B, backendFor cfg g.1 = some B) ∧
         ∀ e ∈ (runCluster cfg o g.1 g.2).log, ∃ batch page,
           e.1 = batchReq (remoteOpts cfg.localId o) batch ∧ e.2 = .page page ∧
-          (page = [] ∨ ∃ u ∈ pageUuids page, u ∈ batch)) ∧
+          (page = [] ∨ ((pageUuids page).Nodup ∧ (∀ u ∈ pageUuids page, u ∈ batch) ∧
+            ∃ u ∈ pageUuids page, u ∈ batch))) ∧
     (∀ ss, (run cfg o).out = .err ss → ss ≠ [] ∧ ∀ s ∈ ss, s = 404 ∨ s = 502) ∧
     ((∃ g ∈ gs, (runCluster cfg o g.1 g.2).stop ≠ .done) → ∃ ss, (run cfg o).out = .err ss) := by
   rw [run_of_split cfg o _ hplan]
@@ -152,8 +214,9 @@ theorem group_nonempty (us : List Uuid) (g : ClusterId × List Uuid) (hg : g ∈
   rw [he] at this; cases this
 
 /-- Fail whole, the three causes spelled out for the first call of a cluster: an involved cluster
-without backend, a backend error, or a non-empty page with none of the requested uuids make the
-whole request an error (404 resp. 502 among the possible statuses). -/
+without backend, a backend error, or a page carrying a uuid that is not in the batch or the same
+uuid twice (in particular a non-empty page with none of the requested uuids) make the whole request
+an error (404 resp. 502 among the possible statuses). -/
 theorem C20_fail_causes (cfg : Cfg) (o : Opts) (gs : List (ClusterId × List Uuid))
     (hplan : plan cfg.localId cfg.maxItems o = .split gs) (g : ClusterId × List Uuid) (hg : g ∈ gs) :
     (backendFor cfg g.1 = none → ∃ ss, (run cfg o).out = .err ss ∧ 404 ∈ ss) ∧
@@ -161,8 +224,8 @@ theorem C20_fail_causes (cfg : Cfg) (o : Opts) (gs : List (ClusterId × List Uui
       B (batchReq (remoteOpts cfg.localId o) g.2) 0 = .error s →
       ∃ ss, (run cfg o).out = .err ss ∧ 502 ∈ ss) ∧
     (∀ B page, backendFor cfg g.1 = some B →
-      B (batchReq (remoteOpts cfg.localId o) g.2) 0 = .page page → page ≠ [] →
-      (∀ u ∈ pageUuids page, u ∉ g.2) →
+      B (batchReq (remoteOpts cfg.localId o) g.2) 0 = .page page →
+      ¬ ((pageUuids page).Nodup ∧ ∀ u ∈ pageUuids page, u ∈ g.2) →
       ∃ ss, (run cfg o).out = .err ss ∧ 502 ∈ ss) := by
   obtain ⟨m, -, hgs, -⟩ := plan_split _ _ _ _ hplan
   have hne : g.2 ≠ [] := by subst hgs; exact group_nonempty _ g hg
@@ -187,10 +250,10 @@ theorem C20_fail_causes (cfg : Cfg) (o : Opts) (gs : List (ClusterId × List Uui
     apply key
     unfold runCluster; rw [hb, hn]
     exact (loop_first_error B _ n g.2 0 s hne hcall).1
-  · intro B page hb hcall hp hnone
+  · intro B page hb hcall hbad
     apply key
     unfold runCluster; rw [hb, hn]
-    exact (loop_first_noprogress B _ n g.2 0 page hne hcall hp hnone).1
+    exact (loop_first_stray B _ n g.2 0 page hne hcall hbad).1
 
 /-- **Rejected before any backend call.** A federated request (not bypassed; the well-formed
 requested uuids name more than one cluster, or a single non-local one) with a filter that is not
@@ -229,10 +292,12 @@ theorem C20_nothing_wellformed (cfg : Cfg) (o : Opts) (cs : Bool) (m : List Uuid
   simp only [h1, if_false, hscan, hm]
   rfl
 
-/-- **What happens outside the honest-backend hypothesis (F10).** For a split request and arbitrary
-backends, a successful result is a permutation of *everything* the backends returned: nothing is
-filtered against the batch and nothing is de-duplicated. So an item that a backend repeats (or
-invents) next to a still-wanted one appears in the result once per occurrence. -/
+/-- **What happens outside the honest-backend hypothesis.** For a split request and arbitrary
+backends, a successful result is a permutation of *everything* the backends returned: the merge
+itself filters nothing and de-duplicates nothing. Exactly-once therefore rests entirely on the
+per-uuid test of the loop (fix d542fa4, `accepts`): a page with a repeated or unrequested item makes
+the request fail (`C20_fail_causes`), and by `C20_safe` a success implies no such item was
+returned. (Before the fix such an item appeared in the result once per occurrence: F10.) -/
 theorem C20_dishonest_repeat (cfg : Cfg) (o : Opts) (gs : List (ClusterId × List Uuid))
     (hplan : plan cfg.localId cfg.maxItems o = .split gs) (items : List Obj)
     (hok : (run cfg o).out = .ok items) :
@@ -287,22 +352,7 @@ theorem C20_backend_choice (cfg : Cfg) (u : Uuid) (B : Backend) (hw : wellFormed
   · simp only [hc, if_false] at hb ⊢
     rw [hb]
 
-/-! ### The full statement over repeating backends is false of the code (finding F10) -/
-
-/-- A backend that pages correctly except that it may also return existing objects outside the
-batch (e.g. objects it already delivered): every returned object exists, and while a wanted object
-remains the page contains one. This is the quantifier's "repeated items". -/
-def RepeatingHonest (ex : Uuid → Bool) (B : Backend) : Prop :=
-  ∀ (o : Opts) (batch : List Uuid) (idx : Nat), o.filters = [batchFilter batch] →
-    ∃ items, B o idx = .page items ∧ (∀ u ∈ pageUuids items, ex u = true) ∧
-      ((∃ u ∈ batch, ex u = true) → ∃ u ∈ pageUuids items, u ∈ batch)
-
-/-- "Exactly once" for backends that may repeat items. -/
-def C20_exactly_once_Full : Prop :=
-  ∀ (cfg : Cfg) (o : Opts) (gs : List (ClusterId × List Uuid)) (ex : ClusterId → Uuid → Bool),
-    plan cfg.localId cfg.maxItems o = .split gs →
-    (∀ g ∈ gs, ∃ B, backendFor cfg g.1 = some B ∧ RepeatingHonest (ex g.1) B) →
-    ∃ items, (run cfg o).out = .ok items ∧ (pageUuids items).Nodup
+/-! ### The former F10 witness: a repeating backend now makes the request fail whole -/
 
 def wB1 : Uuid := "bbbbb-4zz18-000000000000001".toList
 def wB2 : Uuid := "bbbbb-4zz18-000000000000002".toList
@@ -359,31 +409,12 @@ theorem wPlan : plan wCfg.localId wCfg.maxItems wOpts = .split [("bbbbb".toList,
 
 theorem wLog : runLogItems (run wCfg wOpts) = [⟨wB1, 1⟩, ⟨wB2, 2⟩, ⟨wB1, 1⟩] := by decide
 
-/-- The code does not satisfy "exactly once" over repeating backends: remote `bbbbb` answers the
-batch {1, 2} with [1] and the shrunk batch {2} with [2, 1]; object 1 is returned twice. -/
-theorem C20_exactly_once_full_fails : ¬ C20_exactly_once_Full := by
-  intro hfull
-  obtain ⟨items, hok, hnd⟩ := hfull wCfg wOpts _ (fun _ u => decide (u ∈ pageUuids wHeld)) wPlan (by
-    intro g hg
-    simp only [List.mem_singleton] at hg
-    subst hg
-    exact ⟨wBackend, rfl, wBackend_repeating⟩)
-  have hp := (C20_dishonest_repeat wCfg wOpts _ wPlan items hok).1
-  rw [wLog] at hp
-  have : (pageUuids [(⟨wB1, 1⟩ : Obj), ⟨wB2, 2⟩, ⟨wB1, 1⟩]).Nodup := (hp.map _).nodup_iff.mp hnd
-  revert this
-  decide
-
-/-- The partial statement that does hold: `C20_exactly_once` under the honest-backend hypothesis
-(pages contain only uuids of the batch, without duplicates). -/
-theorem C20_exactly_once_partial (cfg : Cfg) (o : Opts) (gs : List (ClusterId × List Uuid))
-    (ex : ClusterId → Uuid → Bool)
-    (hplan : plan cfg.localId cfg.maxItems o = .split gs)
-    (hB : ∀ g ∈ gs, ∃ B, backendFor cfg g.1 = some B ∧ Honest (ex g.1) B) :
-    ∃ items, (run cfg o).out = .ok items ∧ (pageUuids items).Nodup ∧
-      (∀ u, u ∈ pageUuids items ↔ (InAll o.filters u ∧ wellFormed u = true ∧ ex (home u) u = true)) := by
-  obtain ⟨items, h1, h2, h3, _⟩ := C20_exactly_once cfg o gs ex hplan hB
-  exact ⟨items, h1, h2, h3⟩
+/-- F10 witness on the fixed code: remote `bbbbb` answers the batch {1, 2} with [1] and the shrunk
+batch {2} with [2, 1]; the request now fails with 502 after those two calls (it used to return
+object 1 twice). So for repeating backends success is not guaranteed — what `C20_exactly_once_full`
+guarantees is that a success is exactly-once. -/
+theorem C20_repeat_fails_whole : (run wCfg wOpts).out = .err [502] ∧ runLogItems (run wCfg wOpts) =
+    [⟨wB1, 1⟩, ⟨wB2, 2⟩, ⟨wB1, 1⟩] := ⟨by decide, wLog⟩
 
 /-! ### Non-vacuity: the hypotheses are satisfiable by non-trivial instances -/
 
@@ -457,6 +488,13 @@ example : run { eCfg with maxItems := 1 } eOpts = ⟨.err [400], []⟩ := by dec
 example : (run wCfg { wOpts with filters := [⟨sUuid, sIn, .slist [wB1, eC1]⟩] }).out = .err [404] := by decide
 -- a failing backend: 502
 example : (run { wCfg with remotes := fun _ => some (fun _ _ => .error 503) } wOpts).out = .err [502] := by decide
+-- the hypotheses of C20_exactly_once_full are satisfiable by a backend that really repeats items
+example : ∀ g ∈ [("bbbbb".toList, [wB1, wB2])],
+    ∃ B, backendFor wCfg g.1 = some B ∧ RepeatingHonest ((fun _ u => decide (u ∈ pageUuids wHeld)) g.1) B := by
+  intro g hg
+  simp only [List.mem_singleton] at hg
+  subst hg
+  exact ⟨wBackend, rfl, wBackend_repeating⟩
 -- a no-progress answer: 502 after one call
 example : (run { wCfg with remotes := fun _ => some (fun _ _ => .page [⟨eC1, 1⟩]) } wOpts).out = .err [502] := by
   decide
